@@ -330,6 +330,10 @@ func updateDashboard(id string, dName string, dashboardDetails map[string]interf
 		return errors.New("dashboard not found")
 	}
 
+	if item.Type != ItemTypeDashboard {
+		return errors.New("updateDashboard: specified ID is not a dashboard")
+	}
+
 	currentParentID := item.ParentID
 	var newParentID string
 
@@ -509,7 +513,8 @@ func buildFolderPath(folderID string, structure *FolderStructure) string {
 	var folderNames []string
 	currentID := folderID
 
-	for currentID != "" && currentID != rootFolderID {
+	// a chain of parents is never longer than the number of items: stop if the structure holds a cycle
+	for steps := 0; currentID != "" && currentID != rootFolderID && steps <= len(structure.Items); steps++ {
 		if item, exists := structure.Items[currentID]; exists {
 			folderNames = append([]string{item.Name}, folderNames...)
 			currentID = item.ParentID
